@@ -5,7 +5,20 @@ import (
 
 	"verifsim/core"
 	_ "verifsim/scen/c01"
+	_ "verifsim/scen/c02"
+	_ "verifsim/scen/c04"
+	_ "verifsim/scen/c07"
+	_ "verifsim/scen/c10"
+	_ "verifsim/scen/c11"
+	_ "verifsim/scen/c12"
+	_ "verifsim/scen/c13"
+	_ "verifsim/scen/c14"
+	_ "verifsim/scen/c15"
 	_ "verifsim/scen/c16"
+	_ "verifsim/scen/c17"
+	_ "verifsim/scen/c18"
+	_ "verifsim/scen/c19"
+	_ "verifsim/scen/c20"
 )
 
 // TestWorker is the worker entry point; it does nothing unless VSIM_MODE is set.
